@@ -39,6 +39,8 @@ P = {'id': 'C01',
               'ctx_new_roundtrip',
               'order2_top_contexts',
               'hm_of_permutes',
+              'par_roundtrip',
+              'par_is_single_lane',
               'rans_step_inverse',
               'rans_no_overflow',
               'rans_roundtrip',
